@@ -121,15 +121,17 @@ type Run struct {
 	Start    time.Time
 	Scratch  string
 
-	mu           sync.Mutex
-	Coverage     map[string]any
-	Assume       []string
-	Viols        []Violation
-	Known        map[string]int // finding id -> matched count
-	Inconcl      []string
-	samples      []any
-	findings     []Finding
-	violTotal    int
+	mu        sync.Mutex
+	Coverage  map[string]any
+	Assume    []string
+	Viols     []Violation
+	Known     map[string]int // finding id -> matched count
+	Inconcl   []string
+	samples   []any
+	findings  []Finding
+	violTotal int
+	// Data: keyed observations sent by children (Child.Data)
+	Data         map[string][]string
 	Replay       bool
 	ReplayStream string
 	ReplayIndex  uint64
